@@ -52,6 +52,17 @@ pub fn c12_configs(tier: Tier) -> Vec<LCfg> {
             }
         }
     }
+    // packets larger than the output buffer: stop / close / connection loss while the DISCONNECT or a publish is half-encoded
+    for mode in [LoopMode::Tokio, LoopMode::Threaded] {
+        let mut c = LCfg::base(&format!("{:?}-big-packets", mode), mode);
+        c.big = true;
+        c.requests = vec![Req::Start, Req::StopDisconnect, Req::Close, Req::Publish];
+        c.max_requests = if thorough { 4 } else { 3 };
+        c.max_attempts = if thorough { 3 } else { 2 };
+        c.budget = if thorough { 4 } else { 3 };
+        c.max_depth = if thorough { 46 } else { 34 };
+        out.push(c);
+    }
     // extreme durations the builders accept
     for (name, timeout) in [("connect-timeout-max", Duration::MAX), ("connect-timeout-zero", Duration::ZERO)] {
         let mut c = LCfg::base(name, LoopMode::Tokio);
